@@ -511,3 +511,15 @@ PROPS["C19"] = Prop(
     trusted_base=VERUS_TRUST,
     not_covered=["environment independence of a whole run", "error-order determinism", "cyclic values"],
 )
+
+
+# validate_args: the definition-time check of a parameter list (C13 / C20 / C17)
+V_VALIDATE = VUnit("validate", "validate", ["eval::validate_args"])
+ALL_V += [V_VALIDATE]
+PROPS["C02"]._v = ALL_V
+for _p in ("C13", "C20", "C17"):
+    PROPS[_p]._v = PROPS[_p]._v + [V_VALIDATE]
+    PROPS[_p].assumptions = PROPS[_p].assumptions + [
+        "validate_args: a parameter list containing `_` is accepted as soon as the `_` is reached (`break`), the remaining parameters are then only "
+        "checked when the function is called (bind_next); the acceptance => validity clauses are therefore stated for parameter lists without `_`; "
+        "std VecDeque / HashMap<String, Location> are assumed sequence / finite-map contracts; anonymous functions are not validated at definition"]
